@@ -278,7 +278,7 @@ func init() {
 		c02Run(c, res)
 		return res.Viol, nil
 	}
-	registerCheck("C02", "model_checking", 120*time.Second, 20*time.Minute, func(r *Run) {
+	registerCheck("C02", "exploration", 120*time.Second, 20*time.Minute, func(r *Run) {
 		var jobs []any
 		for _, ow := range c02Owners {
 			for _, fl := range c02Flows {
